@@ -464,6 +464,12 @@ def replaceInMinimize (ret : Prog) (stm : Stm) : M (List Stm) :=
             match oldmax with
             | none => throw "assert: oldmax is not None"
             | some om =>
+              -- fix (known_findings.json `fixed:`): the weight has to be the min/max result itself
+              let args0 ← liftE (oldmaxArgs om)
+              match args0[mp.idx]? with
+              | none => throw "py: IndexError: oldmax.atom.symbol.arguments[idx]"
+              | some ra =>
+              if ra != Term.var varname then pure [stm] else
               let oldVars := (vOfList om.vars).filter (· != varname)
               let termVars := ts.flatMap characteristicVars
               if !vSubset oldVars termVars then pure [stm]
@@ -496,6 +502,12 @@ def replaceInSumElem (elem : BAggElem) (restElems : List BAggElem) : M (List BAg
         match simpleWeight w with
         | none => pure [elem]
         | some (varname, minimize) =>
+          -- fix (known_findings.json `fixed:`): the weight has to be the min/max result itself
+          let args0 ← liftE (oldmaxArgs (.lit om))
+          match args0[mp.idx]? with
+          | none => throw "py: IndexError: old_max.atom.symbol.arguments[idx]"
+          | some ra =>
+          if ra != Term.var varname then pure [elem] else
           let oldVars := (vOfList (litVars om)).filter (· != varname)
           let termVars := restTerms.flatMap characteristicVars
           if !vSubset oldVars termVars then pure [elem]
